@@ -168,6 +168,8 @@ def build_cases(tier, seed):
             net = {"type": "grid", "n": rnd.randint(3, 8), "seed": rnd.randint(0, 10**6), "speeds": rnd.choice(["varied", "uniform", "slow", "mixed"]), "oneway": rnd.choice([0.0, 0.2, 0.4]), "delete": rnd.choice([0.0, 0.1, 0.2]), "dlat": rnd.choice([0.0003, 0.002, 0.01]), "dlon": rnd.choice([0.0004, 0.0025, 0.012])}
         if k in (1, 3):
             net["stubs"] = rnd.choice([0.2, 0.5])
+        if k in (2, 3):
+            net["parallel"] = rnd.choice([0.05, 0.15])
         cases.append({"engine": "c13_sweep", "id": f"C13-sweep{j}", "seed": seed * 1000 + j, "net": net, "n": per})
     if tier == "thorough":
         for j in range(8):
